@@ -438,6 +438,25 @@ fn mutate(rng: &mut Rng, n: &Numeral) -> String {
     cs.into_iter().collect()
 }
 
+/// digits in comma-separated groups of which at least one has the wrong size, with well-formed groups around it
+fn gen_bad_grouping(rng: &mut Rng) -> String {
+    let mut groups: Vec<String> = vec![];
+    let first_len = 1 + rng.below(3);
+    let mut first = String::new();
+    first.push(*rng.pick(&['1', '2', '5', '9']));
+    for _ in 1..first_len {
+        first.push(*rng.pick(&['0', '1', '3', '7']));
+    }
+    groups.push(first);
+    let n = 2 + rng.below(3);
+    let bad = rng.below(n);
+    for g in 0..n {
+        let len = if g == bad { *rng.pick(&[1usize, 2, 4]) } else { 3 };
+        groups.push((0..len).map(|_| *rng.pick(&['0', '4', '5', '6', '8'])).collect());
+    }
+    groups.join(",")
+}
+
 fn fullwidth(s: &str) -> String {
     s.chars()
         .map(|c| match c {
@@ -522,7 +541,7 @@ pub fn run(ctx: &Ctx, rep: &mut Report) {
                     _ => gen_units(&mut rng),
                 };
                 let malformed = rng.chance(1, 4);
-                let raw = if malformed { mutate(&mut rng, &n) } else { n.text.clone() };
+                let raw = if malformed { if rng.chance(1, 3) { gen_bad_grouping(&mut rng) } else { mutate(&mut rng, &n) } } else { n.text.clone() };
                 let spelled = if default_input && rng.chance(1, 3) { fullwidth(&raw) } else { raw.clone() };
                 let start = text.len();
                 text.push_str(&spelled);
@@ -570,7 +589,20 @@ pub fn run(ctx: &Ctx, rep: &mut Report) {
                     }
                     None => {
                         rep.count("mutated_numerals_checked", 1);
-                        let _ = raw;
+                        // a run of digits and thousands separators only whose grouping is bad (leading / trailing separators
+                        // aside): the text is left as separate pieces, so no token may reach across a separator
+                        let core = raw.trim_matches(',');
+                        let bad_grouping = core.contains(',') && core.chars().all(|c| c.is_ascii_digit() || c == ',') && matches!(evaluate(core), Eval::Malformed(_));
+                        if bad_grouping {
+                            rep.count("bad_separator_groupings_checked", 1);
+                            for tk in &toks {
+                                let inner: Vec<char> = tk.surface.chars().collect();
+                                let spans_sep = inner.len() >= 3 && inner[1..inner.len() - 1].iter().any(|c| *c == ',' || *c == '，');
+                                if spans_sep {
+                                    rep.violation("malformed_joined", "JoinNumericPlugin", &format!("in the malformed grouping {:?} the piece {:?} is joined across a thousands separator (normalised form {:?})", raw, tk.surface, tk.norm), "", scen());
+                                }
+                            }
+                        }
                         for tk in toks {
                             // the token's text in normalised spelling
                             let surf: String = tk.surface.chars().map(|c| match c {
